@@ -28,6 +28,9 @@ func runC08(c *Ctx) {
 	c.equalityReadsDataOnly("C08.2")
 	c.revisionChoice()
 	c.createLoop()
+	// "status.updateRevision names ...": the name reaches the stored status only if the computed status is what every
+	// attempt of the status write sends (the retry-shape rules shared with C09.5 / C12.5)
+	c.statusRetryShape("C08.5")
 	// the history the update revision is looked up in (and renumbered against) holds every listed revision that is
 	// this set's or nobody's (the lister rules of C13/C10, as clauses of this property)
 	c.withOnly(map[string]string{"C08.3h-owner-filter": "C08.3-history-owner-filter", "C08.3h-unowned-revisions-are-kept": "C08.3-history-keeps-unowned-revisions"}, nil, "C08.3-history-lister", 2, func() { c.listerFilters("C08.3h", "C08.3h-dedup") })
